@@ -32,6 +32,18 @@ CLAIMS = {
         'name; no stale loop variable; for every (cleaned, loaded subsamples) configuration the index columns read by the subsample code are force-added; loaders are pure.',
    note='Not decided: astropy casting on assignment, file contents, numeric equality between two loads (follows from the mechanisms, argued not checked).',
    design_ref='DESIGN.md section 4, C02'),
+ 'C06': dict(
+   technique='static analysis: exact polynomial normal forms of the assignment weights in the sub-cell offset (kernel equality, partition of unity, non-negativity) + structural deposit-table / index-offset matching',
+   text='Decides for all positions, weights, grid shapes and offsets: the per-axis weights of _tsc_scatter and cic_serial equal the standard TSC/CIC kernels at cell offsets -1,0,+1, sum to 1 identically (conservation), '
+        'are non-negative on |d|<=1/2; the 27 deposits pair each cell offset with its weight exactly once and accumulate with += into the supplied grid; periodic indices are rightwrap(i+o, g_axis); in-place wrap and grid plumbing are intact.',
+   note='Trusted: |round(x)-x| <= 1/2, numba negative-index wrap. Not decided: floating-point rounding; "shifting rolls the grid" follows from geometry+table+wrap and is argued, not separately checked.',
+   design_ref='DESIGN.md section 4, C06'),
+ 'C07': dict(
+   technique='static analysis: path-sensitive symbolic evaluation of the npartition choice/validation with linear-integer entailment (floor-div, min/max, parity by integer tightening) + schedule/ownership rules on the prange phases',
+   text='Decides the premises of the stripe lemma on the source for all grid sizes, thread counts and user/default npartition: every accepted parallel multi-stripe configuration has 3*npartition <= ngrid and npartition even, the default is never rejected, '
+        'the two prange phases take stripes 2i and 2i+1 (weights alike) covering every stripe once within the stripe table, one coord drives key and grid axis, key = min(int(x*P/box),P-1), footprint is 3 cells, no other shared store.',
+   note='The stripe lemma itself (3-cell clouds of stripes >=3 wide and two apart are disjoint; P even handles the periodic seam) is a paper argument in DESIGN.md. Float32 rounding of keys at exact stripe boundaries not modelled; numeric equality with the serial sum is not decided.',
+   design_ref='DESIGN.md section 4, C07'),
 }
 _NB = 'rule family not built yet in this session (claimed only once its checker exists; see DESIGN.md section 4)'
 NOT_APPLICABLE = {f'C{n:02d}': _NB for n in range(1, 21) if f'C{n:02d}' not in CLAIMS}
